@@ -27,7 +27,11 @@ def build(rng, facts, name):
     for v in vals: b.kadd("k", v, rng.choice([None, None, 2.0, 0.5, 3.0]))
     # history: merge / copy / clear / decode
     h = rng.choice(["none", "merge", "copy", "clear-refill", "decode"])
-    if h == "merge":
+    if h == "merge" and rng.random() < 0.3:
+        sib = "%s:g:%s:%s" % (f["kind"], f2h(f["gamma"]), f2h(f["off"] + rng.choice([1.0, -2.5, 40.0])))
+        b.knew("ox", sib, rng.choice(STORES), rng.choice(STORES), exact); b.kadd("ox", 100.0); b.kadd("ox", 200.0)
+        b.emit("kmerge k ox", "err mapping-mismatch")
+    elif h == "merge":
         b.knew("o", spec, rng.choice(STORES), rng.choice(STORES), exact)
         for v in dataset(rng, f)[1][:6]: b.kadd("o", v)
         b.kmerge("k", "o")
